@@ -152,12 +152,13 @@ func c02WriteOrder(r *Run, wf *ssa.Function) {
 				}
 			}
 			r.Check(okf, "write-order", "WriteFcall: Flush only after successful sendmsg", in.Pos(), "Flush is reachable without a successful sendmsg")
-			e := errResult(in.(*ssa.Call))
 			okp := false
-			if e != nil {
-				okp, _ = errPropagated(wf, e)
+			if fc, isCall := in.(*ssa.Call); isCall { // a deferred or go'ed Flush has no result anybody can look at
+				if e := errResult(fc); e != nil {
+					okp, _ = errPropagated(wf, e)
+				}
 			}
-			r.Check(okp, "error-propagation", "WriteFcall: Flush error returned", in.Pos(), "Flush's error is dropped")
+			r.Check(okp, "error-propagation", "WriteFcall: Flush error returned", in.Pos(), "Flush's error is dropped (a write that fails while the frame leaves the buffer is reported as success)")
 		}
 	})
 	// errors of maybeTruncate and Marshal are returned
@@ -800,6 +801,31 @@ func c02Msgmsize(r *Run, mm *ssa.Function) {
 			}
 		}
 		r.Check(ok, "msgmsize", "msgmsize(fcall) == 4 + codec.Size(fcall)", ret.Pos(), "msgmsize returns "+l.String(), "msgmsize = "+l.String())
+	}
+	// … and the codec's Size is size9p of its argument on every path: the one size function whose agreement with encode
+	// the grammar rules decide (a shortcut for some message kinds is a second size function nobody compares with encode)
+	if sz := r.P.Fn("p9p:(codec9p).Size"); sz != nil {
+		r.SawFn(fnName(sz))
+		n := 0
+		for _, ret := range returnsOf(sz) {
+			n++
+			ok := false
+			v := stripConv(ret.Results[0])
+			if cv, isCv := v.(*ssa.Convert); isCv {
+				v = cv.X
+			}
+			if c, isC := v.(*ssa.Call); isC && calleeName(&c.Call) == "p9p.size9p" {
+				el := varargsElems(c.Call.Args[len(c.Call.Args)-1])
+				if len(el) == 1 && stripConv(el[0]) == ssa.Value(sz.Params[len(sz.Params)-1]) {
+					ok = true
+				}
+			}
+			r.Check(ok, "msgmsize", "codec9p.Size: every return is size9p of the argument", ret.Pos(),
+				"Size returns something other than size9p(v) on some path: the size used to decide whether a frame fits is not the one that agrees with what encode writes")
+		}
+		r.Floor("msgmsize", n, 1, "returns of codec9p.Size")
+	} else {
+		r.Undecided("msgmsize", "(codec9p).Size", token.NoPos, "anchor not found")
 	}
 }
 
